@@ -1,5 +1,5 @@
 """C10 — Type hierarchy queries agree with the declared single-inheritance tree."""
-from harness import sessions, tsgen
+from harness import sessions, tsderive, tsgen
 from harness.common import bud
 from harness.sessions import SB
 
@@ -27,7 +27,7 @@ THEOREMS = [
 ]
 ASSUMPTIONS = [
     "types are identified by name inside one type system in the model; that every Type object reachable through supertypes and feature domain/range/element types *is* the registered object is observed on the implementation only (identity walk), not proved",
-    "histories in this round: create_type / create_feature through the API (XML loading, JSON-embedded type systems and merging are covered by C12/C13/C02 when claimed)",
+    "histories: create_type / create_feature through the API, then optionally one derivation (load_typesystem(to_xml()), the type system reconstructed from a JSON document, merge with itself / an empty type system / a copy in which some types hang below a more general ancestor, so that merging re-parents them); the theorems cover the API steps (C10), the loader (C12: load_consistent) and the merge (C13: merge_consistent); that a derivation reproduces the same tree is checked per run",
     "re-creating a predefined type name (finding T3) is outside the theorems' hypothesis (hasExact ts name = false)",
 ]
 
@@ -37,6 +37,7 @@ def gen_session(rng, n_ops, finding_stream=False):
     ts = sb.ts_new()
     sh = tsgen.Shadow()
     expect = {}  # op index -> expected outcome
+    kind = None if finding_stream else rng.choice([None, None] + tsderive.KINDS)
     for _ in range(n_ops):
         r = rng.random()
         if r < 0.72:
@@ -56,9 +57,23 @@ def gen_session(rng, n_ops, finding_stream=False):
             expect[i] = sh.create_type(name, sup)
         else:
             dom = rng.choice(sh.order)
+            if kind is not None:
+                # a type system that is going to be serialised keeps the built-in types as they are
+                usr = [n for n in sh.order if n not in sh.K["predefined"] and n != "uima.tcas.DocumentAnnotation"]
+                if not usr:
+                    continue
+                dom = rng.choice(usr)
             i = len(sb.ops)
-            sb.create_feature(ts, dom, rng.choice(tsgen.FEAT_NAMES), rng.choice(tsgen.RANGES_PRIM + sh.order[-5:]))
+            if rng.random() < 0.25:
+                # element types are Type objects a loader has to resolve as well (identity walk below)
+                sb.create_feature(ts, dom, rng.choice(tsgen.FEAT_NAMES), "uima.cas.FSArray", elem=rng.choice(sh.order[-5:]))
+            else:
+                sb.create_feature(ts, dom, rng.choice(tsgen.FEAT_NAMES), rng.choice(tsgen.RANGES_PRIM + sh.order[-5:]))
             # feature creation is C11's subject: here it only has to leave the tree alone
+    # the queries are asked of the type system itself or of one derived from it by XML / JSON loading or merging
+    if kind is not None:
+        ts = tsderive.derive(rng, sb, ts, sh, kind)
+    lst = (lambda l: ("val", l)) if kind is None else (lambda l: ("set", sorted(l)))
     # queries
     names = list(sh.order)
     user = [n for n in names if n not in sh.K["predefined"]]
@@ -67,8 +82,8 @@ def gen_session(rng, n_ops, finding_stream=False):
     sample = sample[:14]
     for a in sample:
         i = len(sb.ops); sb.query(ts, "supertype", name=a); expect[i] = ("val", sh.parent[a])
-        i = len(sb.ops); sb.query(ts, "children", name=a); expect[i] = ("val", sh.children(a))
-        i = len(sb.ops); sb.query(ts, "descendants", name=a); expect[i] = ("val", sh.descendants(a))
+        i = len(sb.ops); sb.query(ts, "children", name=a); expect[i] = lst(sh.children(a))
+        i = len(sb.ops); sb.query(ts, "descendants", name=a); expect[i] = lst(sh.descendants(a))
     for a in sample[:10]:
         for b in sample[:10]:
             i = len(sb.ops); sb.query(ts, "subsumes", a=a, b=b); expect[i] = ("val", sh.subsumes(a, b))
@@ -80,6 +95,7 @@ def gen_session(rng, n_ops, finding_stream=False):
         expect[i] = ("val", r) if r is not None else "TypeNotFoundError"
         i = len(sb.ops); sb.query(ts, "contains", name=n); expect[i] = ("val", r is not None)
     i = len(sb.ops); sb.query(ts, "identity"); expect[i] = ("val", True)
+    sb.meta["derived"] = kind
     return sb.ops, expect, len(user)
 
 
@@ -90,7 +106,13 @@ def evaluate(ctx, out, sess, tag):
     for si, (ops, expect, nuser) in enumerate(sess):
         io = impl[si]
         if model is not None:
-            d = sessions.first_diff(io, model[si])
+            def canon_op(i, x, ops=ops):
+                # the order of children / descendants / registered types of a derived type system is not compared
+                if i < len(ops) and ops[i]["op"] == "ts.query" and ops[i].get("kind") in ("children", "descendants", "types") \
+                        and isinstance(x, dict) and isinstance(x.get("ok"), list):
+                    return {"ok": sorted(x["ok"])}
+                return x
+            d = sessions.first_diff(io, model[si], canon_op)
             if d is not None:
                 out.disagreements.append({"scenario": {"k": "session", "ops": ops}, "op_index": d,
                                           "impl": io[d] if d < len(io) else None,
@@ -103,6 +125,8 @@ def evaluate(ctx, out, sess, tag):
             out.count("op:" + ops[i]["op"] + (":" + ops[i].get("kind", "") if ops[i]["op"] == "ts.query" else ""))
             if exp == "ok":
                 ok = "ok" in got
+            elif isinstance(exp, tuple) and exp[0] == "set":
+                ok = "ok" in got and isinstance(got["ok"], list) and sorted(got["ok"]) == exp[1]
             elif isinstance(exp, tuple):
                 ok = "ok" in got and got["ok"] == exp[1]
             else:
